@@ -663,7 +663,8 @@ pub fn check(hdr: &str, lines: &[String], trace: &[(String, Vec<String>)], mon: 
         // deferred READ
         if let Some((_s, dst, _f)) = &frag {
             if delivered_now && accepted_master && to_us_flag && !herr && func != Some(0) {
-                if func == Some(1) && wellformed && unsol_waiting.is_some() && !has_cb(outs, "cb unsol_confirmed") {
+                let answered_now = t.iter().any(|x| x.bytes.len() >= 4 && x.bytes[1] == 0x81 && x.bytes[0] & 0x80 != 0 && Some(x.bytes[0] & 0x0F) == seq);
+                if func == Some(1) && wellformed && unsol_waiting.is_some() && !has_cb(outs, "cb unsol_confirmed") && !answered_now {
                     pending_deferred = seq;
                 } else {
                     pending_deferred = None;
